@@ -330,6 +330,6 @@ def case(spec, ctx):
 
 
 def shard(ctx):
-    ctx.run_given(api_cases(), case, examples=ctx.budget["api_examples"], label="api")
-    ctx.run_given(twin_cases(cpp=False), case, label="py")
+    ctx.run_given(api_cases(), case, examples=ctx.budget["api_examples"], label="api", share=0.25)
+    ctx.run_given(twin_cases(cpp=False), case, label="py", share=0.4)
     ctx.run_given(twin_cases(cpp=True), case, examples=ctx.budget["cpp_examples"], label="cpp")
